@@ -76,6 +76,9 @@ func mintLeaf(ca *x509.Certificate, caKey crypto.Signer, key crypto.Signer, cn s
 	return tls.Certificate{Certificate: [][]byte{der, ca.Raw}, PrivateKey: key, Leaf: parsed}, parsed, nil
 }
 
+// CA2Key returns the rogue CA's private key (the rogue "owns" that certificate).
+func (p *CertPool) CA2Key() crypto.Signer { return p.ca2Key }
+
 // BuildCertPool must run under cryptotest.SetGlobalRandom so that every worker
 // process mints byte-identical credentials.
 func BuildCertPool() (*CertPool, error) {
